@@ -4,7 +4,7 @@ package disruption
 // (StartCommand: taint -> DisruptionReason -> create replacements -> MarkForDeletion -> enqueue;
 // Queue.Reconcile: wait / delete candidates / timeout / rollback; Controller.Reconcile: stale cleanup)
 // on the cluster builder of this package.  Additive: new step kinds on top of the disruption driver's
-// (schema: spec/DISRUPT_TRACE.md section 4); registered as driver "orch".
+// (schema: spec/DISRUPT_TRACE.md section 5); registered as driver "orch".
 //
 // Commands are built the way the methods build them: candidates through GetCandidates/NewCandidate from
 // the state.Cluster the real informers hydrated, replacements either as NodeClaimTemplate literals (what
